@@ -77,12 +77,14 @@ def r1_setters(ck, prog, run):
         run.touched(st)
         host = "DualPolarizationSignal" if clsname == "DualPolarizationSignal" else ("RadioSignal" if clsname == "RadioSignal" else "Signal")
         priv = "_" + prop
-        for label, val in bads:
+        # validation must not depend on an unrelated property of the object: the same table on an odd channel count
+        variants = [(label, val, 4) for label, val in bads] + ([(label, val, 3) for label, val in bads] if host != "Signal" and prop in ("freq_align", "center_freq", "chan_bw") else [])
+        for label, val, nch in variants:
             n_bad += 1
-            z = make_signal(prog, host, nchan=4)
+            z = make_signal(prog, host, nchan=nch)
             old = z.attrs.get(priv)
             ev = ck.evaluator()
-            tag = f"{clsname}.{prop} = {label}"
+            tag = f"{clsname}.{prop} = {label}" + ("" if nch == 4 else f" [nchan = {nch}]")
             try:
                 ev.setattr(z, prop, val, FR())
                 ck.same("R1", st.where, tag, "an invalid value raises ValueError and is not stored", False,
